@@ -17,6 +17,8 @@ Automaton: `wfOk_iff_spec` — FULL, both directions, all traces: `wfRun` accept
   class (`Violates`, Spec.lean); `wfRun_popEmpty_spec` is its instance for `popEmpty`.
   `wf_time_nondecreasing`, `wf_pop_balanced`, `wf_no_use_after_destroy`, `wfStep_time`: the earlier soundness statements
   at the level of the automaton state (kept unchanged).
+  `balancedOn_iff`, `destroy_balanced_spec`: push / pop balance when a container goes away — the driver's test at a
+  PajeDestroyContainer (and at the end of the trace) holds iff every state type of that container has depth 0 on the trace.
 Helper lemmas of the automaton part: Lemmas.lean.
 -/
 namespace SgVerif.C47
